@@ -221,6 +221,31 @@ pub fn run(ctx: &Ctx) {
     });
     ctx.part_done("data-all-lengths", true, json!("data chunks of every length 0..=255 x 4 offsets x 3 fills"));
 
+    // the message trip made from the destructor of a thread-local value while its thread shuts down (a connection object
+    // that says goodbye when its thread ends), after the same thread made trips normally
+    let teardown: Vec<M> = {
+        let mut v = all_addressed(0x0203);
+        v.push(M::Data { off: 0x10, data: (0..40).collect() });
+        v.push(M::Data { off: 0, data: vec![] });
+        v.push(M::Count(6));
+        v
+    };
+    par_range(ctx, "trip-during-thread-teardown", teardown.len() as u64, |i, st| {
+        let m = teardown[i as usize].clone();
+        let (a, b) = (m.clone(), m.clone());
+        crate::engine::in_thread_teardown(
+            move || {
+                let _ = check_msg(&a, &mut Stats::new());
+            },
+            move || check_msg(&b, &mut Stats::new()),
+        )
+        .map_err(|e| (json!({"msg": m}), format!("inside a thread-local destructor at thread exit: {e}")))?;
+        st.eval();
+        st.nontrivial_enumerated(1);
+        Ok(())
+    });
+    ctx.part_done("trip-during-thread-teardown", true, json!({"messages": teardown.len(), "what": "every addressed message kind, two data chunks and a count make the wire trip inside a thread-local destructor at thread exit"}));
+
     run_generated(
         ctx,
         "data-generated",
@@ -289,6 +314,16 @@ pub fn run(ctx: &Ctx) {
 
 pub fn replay(part: &str, case: &Value) -> Result<(), String> {
     let mut st = Stats::new();
+    if part == "trip-during-thread-teardown" {
+        let c: MsgCase = serde_json::from_value(case.clone()).map_err(|e| format!("bad case: {e}"))?;
+        let (a, b) = (c.msg.clone(), c.msg);
+        return crate::engine::in_thread_teardown(
+            move || {
+                let _ = check_msg(&a, &mut Stats::new());
+            },
+            move || check_msg(&b, &mut Stats::new()),
+        );
+    }
     if part == "pairs" {
         let c: PairCase = serde_json::from_value(case.clone()).map_err(|e| format!("bad case: {e}"))?;
         return check_pair(&c, &mut st);
